@@ -92,6 +92,7 @@ package gera
 //@   loop 1 invariant fresh(thisMapCopy) && forall k K :: #visited[k] ==> (k in thisMapCopy) && thisMapCopy[k] == w.theMap[k]
 //@   loop 1 invariant forall k K :: (k in thisMapCopy) ==> (k in w.theMap) && thisMapCopy[k] == w.theMap[k]
 //@   ensures r != nil ==> fresh(r)
+//@   ensures w == nil ==> r == nil && err == nil
 //@   ensures err == nil ==> forall k K :: old(flatHas(iface(w), k)) ==> (k in r)
 //@   ensures err == nil ==> forall k K :: (k in r) ==> old(flatHas(iface(w), k))
 //@   ensures err == nil ==> forall k K :: (k in r) ==> r[k] == old(flatVal(iface(w), k))
@@ -101,6 +102,7 @@ package gera
 //@   property C14
 //@   modifies nothing
 //@   ensures r != nil ==> fresh(r)
+//@   ensures w == nil ==> r == nil && err == nil
 //@   ensures err == nil && w != nil ==> forall k K :: flatHas(w.parent, k) ==> (k in r)
 //@   ensures err == nil && w != nil ==> forall k K :: (k in r) ==> flatHas(w.parent, k)
 //@   ensures err == nil && w != nil ==> forall k K :: (k in r) ==> r[k] == flatVal(w.parent, k)
@@ -117,6 +119,7 @@ package gera
 //@   loop 1 invariant fresh(thisMapCopy) && forall k K :: #visited[k] ==> (k in thisMapCopy) && thisMapCopy[k] == w.theMap[k]
 //@   loop 1 invariant forall k K :: (k in thisMapCopy) ==> (k in w.theMap) && thisMapCopy[k] == w.theMap[k]
 //@   ensures r != nil ==> fresh(r)
+//@   ensures w == nil ==> r == nil && err == nil
 //@   ensures err == nil && w != nil ==> forall k K :: old((k in w.theMap) || flatHas(m, k)) ==> (k in r)
 //@   ensures err == nil && w != nil ==> forall k K :: (k in r) ==> old((k in w.theMap) || flatHas(m, k))
 //@   ensures err == nil && w != nil ==> forall k K :: (k in r) ==> r[k] == old(if (k in w.theMap) then w.theMap[k] else flatVal(m, k))
